@@ -780,6 +780,14 @@ func ruleBC3(c *Ctx) {
 			}
 		}
 	}
+	c.objCtorLemma("lemma OBJ-LEN")
+}
+
+// objCtorLemma: types.Obj builds a fresh object type whose field list is exactly the list it was given (same fields, same
+// order) and returns that very object. BC-3 consumes the length (OP_NEW_OBJ pops one value per type field, the compiler pushes
+// one per literal field); LAYOUT consumes the order and the freshness (object values are filled by the literal's positions, so
+// the type a literal is annotated with must have the literal's own field order, not that of an equal type built elsewhere).
+func (c *Ctx) objCtorLemma(label string) {
 	// OBJ-LEN lemma, second half: the constructor keeps the field list it is given (same length)
 	if fd := c.FuncDecl("types", "Obj"); fd != nil && fd.Type.Params != nil && len(fd.Type.Params.List) == 1 && len(fd.Type.Params.List[0].Names) == 1 {
 		param := c.objOf(fd.Type.Params.List[0].Names[0])
@@ -846,8 +854,49 @@ func ruleBC3(c *Ctx) {
 			}
 			return true
 		})
-		c.R.Check(found && okKeep, "types.Obj", "lemma OBJ-LEN: the object type keeps the field list it was given", fd.Pos(), "ObjTy.Fields is the parameter itself: as many fields as the literal has", "types.Obj may build an object type with a different number of fields than it was given (fields dropped, merged or added): the VM pushes one value per literal field and OP_NEW_OBJ pops one per type field")
+		c.R.Check(found && okKeep, "types.Obj", label+": the object type keeps the field list it was given", fd.Pos(), "ObjTy.Fields is the parameter itself: as many fields as the literal has", "types.Obj may build an object type with a different number of fields than it was given (fields dropped, merged or added): the VM pushes one value per literal field and OP_NEW_OBJ pops one per type field")
 	} else {
 		c.R.Anchor("types.Obj")
+	}
+
+	if fd := c.FuncDecl("types", "Obj"); fd != nil {
+		// every return hands out the locally built composite
+		var local types.Object
+		ast.Inspect(fd.Body, func(x ast.Node) bool {
+			if as, ok := x.(*ast.AssignStmt); ok && len(as.Lhs) == 1 && len(as.Rhs) == 1 {
+				if cl, ok := unparen(as.Rhs[0]).(*ast.CompositeLit); ok && typeStr(c.typeOf(cl)) == "types.ObjTy" {
+					local = c.objOf(as.Lhs[0])
+				}
+				if u, ok := unparen(as.Rhs[0]).(*ast.UnaryExpr); ok && u.Op == token.AND {
+					if cl, ok := unparen(u.X).(*ast.CompositeLit); ok && typeStr(c.typeOf(cl)) == "types.ObjTy" {
+						local = c.objOf(as.Lhs[0])
+					}
+				}
+			}
+			return true
+		})
+		okRet := local != nil
+		for _, r := range returnsOf(fd.Body) {
+			if len(r.Results) != 1 {
+				okRet = false
+				continue
+			}
+			e := unparen(r.Results[0])
+			if u, ok := e.(*ast.UnaryExpr); ok && u.Op == token.AND {
+				e = unparen(u.X)
+			}
+			if se, ok := e.(*ast.SelectorExpr); ok {
+				e = unparen(se.X)
+			}
+			if ce, ok := e.(*ast.CallExpr); ok && len(ce.Args) == 0 { // t.Ty()
+				if se, ok := ce.Fun.(*ast.SelectorExpr); ok {
+					e = unparen(se.X)
+				}
+			}
+			if id, ok := e.(*ast.Ident); !ok || c.objOf(id) != local {
+				okRet = false
+			}
+		}
+		c.R.Check(okRet, "types.Obj", label+": the constructor returns the object type it has just built", fd.Pos(), "every return is the local composite: a literal's type has the literal's own field order", "types.Obj can return an object type other than the one it built from its argument (an interned / cached / canonicalised equal type): the field order of a literal's type then differs from the order in which the back ends fill the value, so fields are stored under wrong names")
 	}
 }
